@@ -424,3 +424,122 @@ class _ExecutorInstance:
     def __exit__(self, *exc):
         self.shutdown(wait=True)
         return False
+
+
+# ------------------------------------------------------------------------------------------------
+# multiprocessing model: children are their (pre-computed) sequences of queue puts
+# ------------------------------------------------------------------------------------------------
+class ModelMP:
+    """Model of multiprocessing.Process / Queue for a parent that polls `is_alive()` and drains
+    a bounded result queue.  A child is run to completion when it is started, against recording
+    queues; what the parent *observes* is then replayed under a symbolic schedule: before every
+    parent operation each live child advances by a symbolic number of steps (a step moves its next
+    recorded put into the real queue if there is room - a full bounded queue blocks the child);
+    `is_alive()` turns false only after the child's last put was delivered."""
+
+    def __init__(self, ctx, max_idle=2):
+        self.ctx = ctx
+        self.children = []
+        self.queues = []
+        self.ops = 0
+        self.idle = 0
+        self.max_idle = max_idle
+        mp = self
+
+        class Queue:
+            def __init__(self, maxsize=0):
+                self.maxsize = maxsize
+                self.items = []
+                self.recording = None
+                mp.queues.append(self)
+
+            def put(self, item, *a, **k):
+                if mp.current is not None:
+                    mp.current.script.append((self, item))
+                else:
+                    self.items.append(item)
+
+            def empty(self):
+                mp.schedule()
+                return not self.items
+
+            def get(self, *a, **k):
+                if not self.items:
+                    raise RuntimeError("model: get() on an empty queue would block forever")
+                return self.items.pop(0)
+
+            def qsize(self):
+                return len(self.items)
+
+            def full(self):
+                return bool(self.maxsize) and len(self.items) >= self.maxsize
+
+        class Process:
+            def __init__(self, target=None, args=(), kwargs=None, daemon=None, name=None):
+                self.target, self.args, self.kwargs = target, args, kwargs or {}
+                self.script = []
+                self.pos = 0
+                self.started = False
+                self.exc = None
+                self.idx = len(mp.children)
+                mp.children.append(self)
+
+            def start(self):
+                self.started = True
+                mp.current = self
+                try:
+                    self.target(*self.args, **self.kwargs)
+                except Exception as e:      # noqa  (a crashing child just ends)
+                    self.exc = e
+                finally:
+                    mp.current = None
+
+            def done(self):
+                return self.pos >= len(self.script)
+
+            def is_alive(self):
+                if self.idx == 0:
+                    mp.schedule()
+                return self.started and not self.done()
+
+            def join(self, timeout=None):
+                while not self.done():
+                    mp.step(self, force=True)
+
+        self.Queue, self.Process = Queue, Process
+        self.current = None
+
+    def step(self, child, force=False):
+        if child.done():
+            return False
+        q, item = child.script[child.pos]
+        if q.full():
+            if force:
+                raise RuntimeError("model: child blocked on a full queue while the parent joins (deadlock)")
+            return False
+        q.items.append(item)
+        child.pos += 1
+        return True
+
+    def schedule(self):
+        """before a parent synchronisation point one live child (symbolic choice) moves its next put
+        into the queue; a bounded number of synchronisation points may pass without any progress"""
+        op = self.ops
+        self.ops += 1
+        live = [c for c in self.children if c.started and not c.done()]
+        if not live:
+            return
+        lo = 0 if self.idle < self.max_idle else 1
+        who = self.ctx.int("op%d_who_runs" % op, lo, len(live))
+        who = who.__index__() if hasattr(who, "__index__") and not isinstance(who, int) else int(who)
+        progressed = False
+        if who > 0:
+            progressed = self.step(live[who - 1])
+            if not progressed:
+                # the chosen child is blocked on the full queue: any other runnable child may go
+                for c in live:
+                    if self.step(c):
+                        progressed = True
+                        break
+        if not progressed:
+            self.idle += 1
